@@ -183,7 +183,7 @@ Example C01_scope_example_members :
   match scope_run (fun n => n) (fun n => n) C01_ft0 (C01_file [C01_s1] []) with
   | SOk es => map e_name (entries_of (TStruct 0) es)
   | SErr _ => []
-  end = [B "Read"; B "Write"; B "String"; B "Getx"; B "IsSetx"; B "ReadField1"; B "writeField1";
+  end = [B "Read"; B "Write"; B "String"; B "InitDefault"; B "Getx"; B "IsSetx"; B "ReadField1"; B "writeField1";
          B "GetGetx"; B "ReadField2"; B "writeField2"; B "x"; B "Getx_"].
 Proof. vm_compute. reflexivity. Qed.
 
